@@ -85,4 +85,16 @@ GROUPS = {
             H("strslice_u16_conversion", ["C15"], "StringSlice::try_convert, as_str", bound="string data of <= 3 bytes of valid UTF-8 (1-, 2- and 3-byte characters); all bounds/offsets full-domain usize"),
         ],
     },
+    "K-varint": {
+        "timeout_quick": 300,
+        "timeout_thorough": 900,
+        "assumptions": [
+            "K-varint: the decoders are the bodies of the function-local macros get_var_u32! / get_var_u32_with_first_byte! of InstructionReader::next, extracted on every run by rule R9 (engine/macrofn.py: `self.ip` -> `*ip`, the out-of-bounds error return -> `return None`, value wrapped in Some) into kani/src/generated.rs; the 100-arm dispatch around them (which operand is decoded for which op) is not verified",
+            "K-varint: a MALFORMED operand with more than 5 continuation bytes shifts by >= 32 (debug panic): outside C05/C06, which quantify over compiler output (K-emit: push_var_u32 emits <= 5 bytes)",
+        ],
+        "harnesses": [
+            H("varint_roundtrip", ["C05", "C06"], "get_var_u32!, get_var_u32_with_first_byte! (InstructionReader::next) against Compiler::push_var_u32"),
+            H("varint_truncated_is_an_error", ["C05", "C06"], "get_var_u32!, get_var_u32_with_first_byte!"),
+        ],
+    },
 }
